@@ -1,14 +1,18 @@
 package main
 
 import (
+	"bytes"
 	"fmt"
 	"math/big"
 	"math/rand"
+	"strings"
 	"time"
 
 	abci "github.com/cometbft/cometbft/abci/types"
 	sdk "github.com/cosmos/cosmos-sdk/types"
 	"github.com/cosmos/cosmos-sdk/types/query"
+	authtypes "github.com/cosmos/cosmos-sdk/x/auth/types"
+	gogotypes "github.com/cosmos/gogoproto/types"
 
 	"verif/harness/chain"
 	"verif/harness/drv"
@@ -21,7 +25,11 @@ func main() { drv.Main("mt", mtDriver) }
 
 // Model <-> chain mapping for MT.tla:
 //
-//	accounts  "u1".."uN"
+//	accounts  "u1".."uN" (the signers); "mod": the fee collector's module address - tracked like a
+//	          user, can be named as recipient, cannot sign (a message naming it as sender is put
+//	          into a transaction signed by the spare account "sx"; the ante handler refuses it)
+//	forms     ev.form says how the message writes the ids it names (writeIDs): as they are, re-split
+//	          at the "/" the store keys are joined with, in upper case, cut short, between blanks
 //	ids       class / token ids are sha256 hashes; they are named d1, d2, ... / m1, m2, ...
 //	          in order of first appearance (opaque ids; MT.tla generates the same names
 //	          from the two sequences).  Unknown names are sent as they are (no such object).
@@ -37,7 +45,39 @@ func main() { drv.Main("mt", mtDriver) }
 //	          Anything else is "inexact" (counted in the state; the trace is then not a
 //	          faithful image).  ev.amtReal carries the real amount as a decimal string.
 //	data      abstract string <-> bytes; "keep" <-> "[do-not-modify]"
-const keep = "keep"
+const (
+	keep    = "keep"
+	modAcct = "mod"
+	spare   = "sx"
+)
+
+// writeIDs: how a message writes the class id and the token id under ev.form (MT.tla).
+func writeIDs(c, id, form string) (string, string) {
+	if c == "" {
+		return c, id
+	}
+	switch form {
+	case "split":
+		h := len(id) / 2
+		return c + "/" + id[:h], id[h:]
+	case "idupper":
+		return c, strings.ToUpper(id)
+	case "idprefix":
+		if len(id) > 1 {
+			id = id[:len(id)-1]
+		}
+		return c, id
+	case "idspace":
+		return c, " " + id + " "
+	case "clsupper":
+		return strings.ToUpper(c), id
+	case "clsprefix":
+		return c[:len(c)-1], id
+	case "clsspace":
+		return " " + c, id
+	}
+	return c, id
+}
 
 // scale is the amount map of one history.
 type scale struct {
@@ -118,7 +158,9 @@ func (sc *scale) toReal(m int64) (uint64, bool) {
 type mtEnv struct {
 	c       *chain.Chain
 	sc      *scale
-	users   []string
+	users   []string          // signers
+	tracked []string          // users + "mod"
+	addrs   map[string]string // account name -> bech32 (accounts that cannot sign)
 	names   map[string]string // bech32 -> account name
 	abs     map[string]string // real id -> abstract name
 	realID  map[string]string // abstract name -> real id
@@ -142,24 +184,44 @@ func usersIn(beh []chain.M, fields ...string) int {
 }
 
 func newMtEnv(fl *drv.Flags, minUsers int) *mtEnv {
-	e := &mtEnv{names: map[string]string{}, abs: map[string]string{}, realID: map[string]string{}}
+	e := &mtEnv{names: map[string]string{}, addrs: map[string]string{}, abs: map[string]string{}, realID: map[string]string{}}
 	e.sc = newScale(int(fl.CfgInt("base", 63)))
 	n := int(fl.CfgInt("users", 3))
 	if minUsers > n {
 		n = minUsers
 	}
-	accts := map[string]string{}
+	accts := map[string]string{spare: "1000stake"}
 	for i := 1; i <= n; i++ {
 		u := fmt.Sprintf("u%d", i)
 		e.users = append(e.users, u)
 		accts[u] = "1000stake"
 	}
+	e.tracked = append(append([]string{}, e.users...), modAcct)
+	e.addrs[modAcct] = chain.ModuleAddr(authtypes.FeeCollectorName).String()
 	e.c = chain.New(chain.Options{Accounts: accts})
 	for _, u := range e.users {
 		e.names[e.c.Accts[u].Addr.String()] = u
 	}
+	e.names[e.addrs[modAcct]] = modAcct
 	e.c.Project = func(ctx sdk.Context) any { return e.project(ctx) }
 	return e
+}
+
+func (e *mtEnv) canSign(name string) bool {
+	for _, u := range e.users {
+		if u == name {
+			return true
+		}
+	}
+	return false
+}
+
+func (e *mtEnv) accAddr(name string) sdk.AccAddress {
+	a, err := sdk.AccAddressFromBech32(e.addr(name))
+	if err != nil {
+		panic(err)
+	}
+	return a
 }
 
 func (e *mtEnv) nameOf(bech string) string {
@@ -170,7 +232,10 @@ func (e *mtEnv) nameOf(bech string) string {
 }
 
 func (e *mtEnv) addr(name string) string {
-	if a, ok := e.c.Accts[name]; ok {
+	if a, ok := e.addrs[name]; ok {
+		return a
+	}
+	if a, ok := e.c.Accts[name]; ok && name != spare {
 		return a.Addr.String()
 	}
 	return name
@@ -265,9 +330,12 @@ func (e *mtEnv) project(ctx sdk.Context) any {
 				n := e.mtName(m.Id)
 				mtOf[d.id] = append(mtOf[d.id], dn{m.Id, n})
 				// the single-token query is the reference for supply and data
+				// (a query that fails - possible on a broken tree - marks the observation
+				// instead of ending the run)
 				one, err := k.MT(ctx, &mttypes.QueryMTRequest{DenomId: d.id, MtId: m.Id})
-				if err != nil {
-					panic(err)
+				if err != nil || one.Mt == nil {
+					tm[n] = chain.M{"data": "?error", "supply": e.sc.maxUM}
+					continue
 				}
 				tm[n] = chain.M{"data": decData(one.Mt.Data), "supply": e.amt(one.Mt.Supply, &inexact)}
 			}
@@ -279,36 +347,52 @@ func (e *mtEnv) project(ctx sdk.Context) any {
 		mts[d.name] = tm
 		supC[d.name] = int64(k.GetDenomSupply(ctx, d.id))
 	}
-	bal := chain.M{}
-	for _, u := range e.users {
-		row := chain.M{}
-		for _, d := range denoms {
-			bm := chain.M{}
-			for _, m := range mtOf[d.id] {
-				bm[m.name] = e.amt(k.GetBalance(ctx, d.id, m.id, e.c.Accts[u].Addr), &inexact)
+	const maxPages = 300 // a pagination that never ends is cut off
+	bal, qbal, qsup := chain.M{}, chain.M{}, chain.M{}
+	for _, d := range denoms {
+		sm := chain.M{}
+		for _, m := range mtOf[d.id] {
+			if r, err := k.MTSupply(ctx, &mttypes.QueryMTSupplyRequest{DenomId: d.id, MtId: m.id}); err == nil {
+				sm[m.name] = e.amt(r.Amount, &inexact)
 			}
-			// holdings the Balances query lists under ids without a token record
+		}
+		qsup[d.name] = sm
+	}
+	for _, u := range e.tracked {
+		row, qrow := chain.M{}, chain.M{}
+		for _, d := range denoms {
+			bm, qm := chain.M{}, chain.M{}
+			for _, m := range mtOf[d.id] {
+				bm[m.name] = e.amt(k.GetBalance(ctx, d.id, m.id, e.accAddr(u)), &inexact)
+			}
+			// the Balances query, page by page (two entries a page); holdings it lists under
+			// ids without a token record are part of the state as well
 			var key []byte
-			for {
-				r, err := k.Balances(ctx, &mttypes.QueryBalancesRequest{Owner: e.addr(u), DenomId: d.id, Pagination: &query.PageRequest{Key: key}})
+			for page := 0; ; page++ {
+				r, err := k.Balances(ctx, &mttypes.QueryBalancesRequest{Owner: e.addr(u), DenomId: d.id, Pagination: &query.PageRequest{Key: key, Limit: 2}})
 				if err != nil {
-					panic(err)
+					for _, m := range mtOf[d.id] {
+						qm[m.name] = e.sc.maxUM
+					}
+					break
 				}
 				for _, b := range r.Balance {
 					n := e.mtName(b.MtId)
+					qm[n] = e.amt(b.Amount, &inexact)
 					if _, known := bm[n]; !known && b.Amount != 0 {
 						bm[n] = e.amt(b.Amount, &inexact)
 					}
 				}
-				if r.Pagination == nil || len(r.Pagination.NextKey) == 0 {
+				if r.Pagination == nil || len(r.Pagination.NextKey) == 0 || page > maxPages {
 					break
 				}
 				key = r.Pagination.NextKey
 			}
-			row[d.name] = bm
+			row[d.name], qrow[d.name] = bm, qm
 		}
-		bal[u] = row
+		bal[u], qbal[u] = row, qrow
 	}
+	raw := e.scan(ctx, &inexact)
 	broken := false
 	func() {
 		defer func() {
@@ -319,18 +403,75 @@ func (e *mtEnv) project(ctx sdk.Context) any {
 		_, broken = mtkeeper.SupplyInvariant(k)(ctx)
 	}()
 	return chain.M{"maxU": e.sc.maxUM, "base": int64(e.sc.base), "hunit": e.sc.h, "seqD": int64(k.GetDenomSequence(ctx)), "seqM": int64(k.GetMTSequence(ctx)),
-		"cls": cls, "mts": mts, "supC": supC, "bal": bal, "inexact": int64(inexact), "invBroken": broken}
+		"cls": cls, "mts": mts, "supC": supC, "bal": bal, "inexact": int64(inexact), "invBroken": broken,
+		"raw": raw, "q": chain.M{"sup": qsup, "bal": qbal}}
+}
+
+// scan reads the mt store key by key (types/keys.go): class records 0x01/<class>, token records
+// 0x02/<class>/<token>, balances 0x03/<address>/<class>/<token>, supplies 0x04/<class>/<token>
+// (0x04/<class>/ is the class's token counter).  Ids are named like everywhere else; addresses of
+// tracked accounts by their names, any other address as it is.
+func (e *mtEnv) scan(ctx sdk.Context, inexact *int) chain.M {
+	cls := []any{}
+	mts, sup, bal := chain.M{}, chain.M{}, chain.M{}
+	sub := func(m chain.M, k string) chain.M {
+		if v, ok := m[k].(chain.M); ok {
+			return v
+		}
+		v := chain.M{}
+		m[k] = v
+		return v
+	}
+	num := func(bz []byte) uint64 {
+		var v gogotypes.UInt64Value
+		if err := v.Unmarshal(bz); err != nil {
+			*inexact++
+			return 0
+		}
+		return v.Value
+	}
+	it := ctx.KVStore(e.c.App.UnsafeFindStoreKey(mttypes.StoreKey)).Iterator(nil, nil)
+	defer it.Close()
+	for ; it.Valid(); it.Next() {
+		k, v := it.Key(), it.Value()
+		if len(k) < 2 || k[1] != '/' {
+			continue // the two sequences
+		}
+		parts := bytes.Split(k[2:], []byte("/"))
+		switch k[0] {
+		case 0x01:
+			cls = append(cls, e.denomName(string(k[2:])))
+		case 0x02:
+			if len(parts) >= 2 {
+				c := e.denomName(string(parts[0]))
+				l, _ := mts[c].([]any)
+				mts[c] = append(l, e.mtName(string(bytes.Join(parts[1:], []byte("/")))))
+			}
+		case 0x03:
+			if len(parts) >= 3 {
+				a := e.nameOf(string(parts[0]))
+				row := sub(sub(bal, a), e.denomName(string(parts[1])))
+				row[e.mtName(string(bytes.Join(parts[2:], []byte("/"))))] = e.amt(num(v), inexact)
+			}
+		case 0x04:
+			if len(parts) >= 2 && len(parts[1]) > 0 {
+				row := sub(sup, e.denomName(string(parts[0])))
+				row[e.mtName(string(bytes.Join(parts[1:], []byte("/"))))] = e.amt(num(v), inexact)
+			}
+		}
+	}
+	return chain.M{"cls": cls, "mts": mts, "sup": sup, "bal": bal}
 }
 
 func mtEvent(name, who, cls, id, to string, amt int64) chain.M {
 	return chain.M{"name": name, "who": who, "cls": cls, "id": id, "to": to, "amt": amt, "data": "", "cname": "",
-		"ok": true, "panic": false, "gen": "", "amtReal": ""}
+		"ok": true, "panic": false, "gen": "", "amtReal": "", "form": ""}
 }
 
 func (e *mtEnv) norm(ev chain.M) chain.M {
 	o := mtEvent(chain.Str(ev, "name"), chain.Str(ev, "who"), chain.Str(ev, "cls"), chain.Str(ev, "id"),
 		chain.Str(ev, "to"), chain.Num(ev, "amt"))
-	o["data"], o["cname"] = chain.Str(ev, "data"), chain.Str(ev, "cname")
+	o["data"], o["cname"], o["form"] = chain.Str(ev, "data"), chain.Str(ev, "cname"), chain.Str(ev, "form")
 	return o
 }
 
@@ -342,7 +483,7 @@ func (e *mtEnv) msgOf(ev chain.M) sdk.Msg {
 	if to != "" {
 		to = e.addr(to)
 	}
-	c, id := e.real(chain.Str(ev, "cls")), e.real(chain.Str(ev, "id"))
+	c, id := writeIDs(e.real(chain.Str(ev, "cls")), e.real(chain.Str(ev, "id")), chain.Str(ev, "form"))
 	amt, ok := e.sc.toReal(chain.Num(ev, "amt"))
 	if !ok {
 		return nil
@@ -382,10 +523,13 @@ func (e *mtEnv) runBlock(pending []chain.M, w *chain.TraceWriter) {
 	var txs []chain.Tx
 	for _, ev := range pending {
 		who := chain.Str(ev, "who")
-		if _, ok := e.c.Accts[who]; !ok {
-			who = e.users[0]
+		tx := chain.Tx{Signer: who, Msgs: []sdk.Msg{e.msgOf(ev)}}
+		if !e.canSign(who) {
+			// nobody holds a key of this sender: the transaction is signed by the spare account
+			// and the ante handler refuses it (kept out of bundles: it must fail alone)
+			tx.Signer, tx.NoBundle = spare, true
 		}
-		txs = append(txs, chain.Tx{Signer: who, Msgs: []sdk.Msg{e.msgOf(ev)}})
+		txs = append(txs, tx)
 	}
 	res := e.c.RunBlock(5*time.Second, txs)
 	if res.Halt {
@@ -397,7 +541,7 @@ func (e *mtEnv) runBlock(pending []chain.M, w *chain.TraceWriter) {
 			// member of a multi-message transaction that failed as a whole (chain.BundlePct):
 			// whatever it did was rolled back; the specification knows no such event and
 			// treats it as a rejection without effect
-			ev["name"] = "TxFailed"
+			ev["_orig"], ev["name"] = ev["name"], "TxFailed"
 		}
 		ev["ok"], ev["panic"] = r.OK, r.Panic
 		// the real uint64 amount, as a decimal string (for readers and a big-number tier)
@@ -423,10 +567,14 @@ func (e *mtEnv) runBlock(pending []chain.M, w *chain.TraceWriter) {
 			st = res.BeginState
 		}
 		w.Write(ev, st)
-		e.last = st.(chain.M)
+		if m, ok := st.(chain.M); ok {
+			e.last = m
+		}
 	}
 	w.Write(mtEvent("EndBlock", "", "", "", "", 0), res.EndState)
-	e.last = res.EndState.(chain.M)
+	if m, ok := res.EndState.(chain.M); ok {
+		e.last = m
+	}
 }
 
 func (e *mtEnv) start(w *chain.TraceWriter) {
@@ -468,6 +616,99 @@ func mtRun(fl *drv.Flags, beh []chain.M, w *chain.TraceWriter) {
 	if len(pending) > 0 {
 		e.runBlock(pending, w)
 	}
+	e.epilogue(fl, w)
+}
+
+// lenient readers of the projected state (a broken tree may produce anything)
+func subM(m chain.M, k string) chain.M {
+	if v, ok := m[k].(chain.M); ok {
+		return v
+	}
+	return chain.M{}
+}
+
+func numOf(m chain.M, k string) int64 {
+	switch v := m[k].(type) {
+	case int64:
+		return v
+	case int:
+		return int64(v)
+	case float64:
+		return int64(v)
+	}
+	return 0
+}
+
+// epilogue closes a history from what the REAL store holds (not from what the specification
+// expected): every balance entry of a signing account - up to a bound - is first moved as a whole
+// to the next user (who may hold the token already), then every holder burns everything it has
+// ("withdraw everything"); every class is handed over by its recorded owner.  Whatever the code
+// wrongly accepted before is thereby followed up and judged by the clauses: the supplies must
+// come down to exactly what the accounts that cannot sign still hold.
+func (e *mtEnv) epilogue(fl *drv.Flags, w *chain.TraceWriter) {
+	if fl.CfgInt("epilogue", 1) == 0 {
+		return
+	}
+	next := func(u string) string {
+		for i, x := range e.users {
+			if x == u {
+				return e.users[(i+1)%len(e.users)]
+			}
+		}
+		return e.users[0]
+	}
+	type hold struct {
+		a, c, m string
+		v       int64
+	}
+	holdings := func() []hold {
+		var out []hold
+		rb := subM(subM(e.last, "raw"), "bal")
+		for _, a := range chain.SortedKeys(rb) {
+			if !e.canSign(a) {
+				continue
+			}
+			for _, c := range chain.SortedKeys(subM(rb, a)) {
+				row := subM(subM(rb, a), c)
+				for _, m := range chain.SortedKeys(row) {
+					if v := numOf(row, m); v > 0 && v <= e.sc.maxUM {
+						out = append(out, hold{a, c, m, v})
+					}
+				}
+			}
+		}
+		return out
+	}
+	var blk []chain.M
+	for i, h := range holdings() {
+		if i < 4 {
+			blk = append(blk, mtEvent("TransferMT", h.a, h.c, h.m, next(h.a), h.v))
+		}
+	}
+	if len(blk) > 0 {
+		e.runBlock(blk, w)
+	}
+	blk = nil
+	for i, h := range holdings() {
+		if i < 10 {
+			blk = append(blk, mtEvent("BurnMT", h.a, h.c, h.m, "", h.v))
+		}
+	}
+	cls := subM(e.last, "cls")
+	for i, c := range chain.SortedKeys(cls) {
+		if o, _ := subM(cls, c)["owner"].(string); i < 3 && e.canSign(o) {
+			blk = append(blk, mtEvent("TransferDenom", o, c, "", next(o), 0))
+		}
+	}
+	var ok []chain.M
+	for _, ev := range blk {
+		if e.msgOf(ev) != nil {
+			ok = append(ok, ev)
+		}
+	}
+	if len(ok) > 0 {
+		e.runBlock(ok, w)
+	}
 }
 
 // needsFlush: the event names a class / token the harness has not seen yet
@@ -504,167 +745,3 @@ func mtDriver(mode string, fl *drv.Flags) error {
 	return nil
 }
 
-// mtRandom: one random history.  Amounts: small values, the 2^63 / 2^64-1
-// boundaries, "exactly what fits" and "one more than fits" (from the observed
-// supply), balance, balance-1, balance+1 for transfers and burns; owners and
-// strangers; transfer to self; handover then mint by old and new owner.
-func mtRandom(fl *drv.Flags, rng *rand.Rand, w *chain.TraceWriter) {
-	e := newMtEnv(fl, 0)
-	e.start(w)
-	pick := func(l []string) string { return l[rng.Intn(len(l))] }
-	hModel, maxUM := e.sc.h, e.sc.maxUM
-	// boundary amounts: one unit of the base and its neighbours, a few units with low
-	// bits, the top of the range (low bits non-zero throughout)
-	bigs := []int64{hModel, hModel - 1, hModel + 1, maxUM, maxUM - 1, maxUM - 5, hModel + 7}
-	if e.sc.m > 2 {
-		bigs = append(bigs, 2*hModel-3, 3*hModel+5, maxUM-hModel-2)
-	}
-	for b := 0; b < fl.Len; b++ {
-		var pending []chain.M
-		cls := e.last["cls"].(chain.M)
-		mts := e.last["mts"].(chain.M)
-		bal := e.last["bal"].(chain.M)
-		have := chain.SortedKeys(cls)
-		type tk struct {
-			c, m string
-			sup  int64
-		}
-		var toks []tk
-		for _, c := range have {
-			tm := mts[c].(chain.M)
-			for _, m := range chain.SortedKeys(tm) {
-				toks = append(toks, tk{c, m, tm[m].(chain.M)["supply"].(int64)})
-			}
-		}
-		balOf := func(u, c, m string) int64 {
-			if row, ok := bal[u].(chain.M)[c].(chain.M); ok {
-				if v, ok := row[m].(int64); ok {
-					return v
-				}
-			}
-			return 0
-		}
-		ownerOf := func(c string) string { return cls[c].(chain.M)["owner"].(string) }
-		n := 1 + rng.Intn(4)
-		for j := 0; j < n; j++ {
-			u := pick(e.users)
-			x := rng.Intn(100)
-			switch {
-			case (x < 6 && len(have) < 4) || len(have) == 0:
-				ev := mtEvent("IssueDenom", u, "", "", "", 0)
-				ev["cname"], ev["data"] = pick([]string{"n", "x y", " "}), pick([]string{"a", "b", ""})
-				if rng.Intn(8) > 0 {
-					ev["cname"] = "n"
-				}
-				pending = append(pending, ev)
-			case x < 20 || len(toks) == 0:
-				c := pick(have)
-				who := ownerOf(c)
-				if rng.Intn(4) == 0 {
-					who = u
-				}
-				amt := int64(1 + rng.Intn(9))
-				if rng.Intn(3) == 0 {
-					amt = bigs[rng.Intn(len(bigs))]
-				}
-				ev := mtEvent("MintMT", who, c, "", pick(append([]string{""}, e.users...)), amt)
-				ev["data"] = pick([]string{"a", "b", ""})
-				pending = append(pending, ev)
-			case x < 40:
-				t := toks[rng.Intn(len(toks))]
-				who := ownerOf(t.c)
-				if rng.Intn(4) == 0 {
-					who = u
-				}
-				var amt int64
-				switch rng.Intn(6) {
-				case 0:
-					amt = bigs[rng.Intn(len(bigs))]
-				case 1:
-					amt = maxUM - t.sup // exactly what fits
-				case 2:
-					amt = maxUM - t.sup + 1 // one too many
-				default:
-					amt = int64(rng.Intn(10)) // includes 0 (invalid)
-				}
-				ev := mtEvent("MintMT", who, t.c, t.m, pick(append([]string{""}, e.users...)), amt)
-				if rng.Intn(15) == 0 {
-					ev["data"] = "a" // metadata is refused when minting an existing token
-				}
-				pending = append(pending, ev)
-			case x < 50:
-				t := toks[rng.Intn(len(toks))]
-				who := ownerOf(t.c)
-				if rng.Intn(3) == 0 {
-					who = u
-				}
-				ev := mtEvent("EditMT", who, t.c, t.m, "", 0)
-				ev["data"] = pick([]string{"a", "b", "c", keep, keep})
-				pending = append(pending, ev)
-			case x < 75:
-				t := toks[rng.Intn(len(toks))]
-				who := u
-				bw := balOf(who, t.c, t.m)
-				var amt int64
-				switch rng.Intn(6) {
-				case 0:
-					amt = bw + 1
-				case 1:
-					amt = bw
-				case 2:
-					amt = bw - 1
-				case 3:
-					amt = bigs[rng.Intn(len(bigs))]
-				default:
-					amt = int64(1 + rng.Intn(5))
-				}
-				to := pick(e.users)
-				if rng.Intn(6) == 0 {
-					to = who
-				}
-				pending = append(pending, mtEvent("TransferMT", who, t.c, t.m, to, amt))
-			case x < 90:
-				t := toks[rng.Intn(len(toks))]
-				who := u
-				bw := balOf(who, t.c, t.m)
-				var amt int64
-				switch rng.Intn(5) {
-				case 0:
-					amt = bw + 1
-				case 1:
-					amt = bw
-				case 2:
-					amt = bigs[rng.Intn(len(bigs))]
-				default:
-					amt = int64(1 + rng.Intn(5))
-				}
-				pending = append(pending, mtEvent("BurnMT", who, t.c, t.m, "", amt))
-			default:
-				c := pick(have)
-				who := ownerOf(c)
-				if rng.Intn(3) == 0 {
-					who = u
-				}
-				pending = append(pending, mtEvent("TransferDenom", who, c, "", pick(e.users), 0))
-			}
-		}
-		if rng.Intn(8) == 0 {
-			// something that does not exist / a token under the wrong class
-			c, m := "nodenom", "nomt"
-			if len(toks) > 1 {
-				c, m = toks[0].c, toks[len(toks)-1].m
-			}
-			pending = append(pending, mtEvent(pick([]string{"BurnMT", "TransferMT", "EditMT", "MintMT"}), pick(e.users), c, m, pick(e.users), 1))
-		}
-		var ok []chain.M
-		for _, ev := range pending {
-			if a := chain.Num(ev, "amt"); a < 0 || a > e.sc.maxUM {
-				continue
-			}
-			if e.msgOf(ev) != nil {
-				ok = append(ok, ev)
-			}
-		}
-		e.runBlock(ok, w)
-	}
-}
